@@ -153,3 +153,34 @@ func H_C07_operands_sharing_structure() {
 	verifAssert(hExact(bl, hSnapAny(l)) && hExact(br, hSnapAny(r)), "Equals never modifies either operand")
 	verifReach("end")
 }
+
+// all four nestings (list in list, list in object, object in list, object in object), two levels down, with
+// independent symbolic leaves on both sides: Equals is decided by the leaves wherever they sit
+func H_C07_every_nesting_compares_leaves() {
+	mk := func(shape int, a, b int, s string) any {
+		switch shape {
+		case 0:
+			return NewList(s, NewList(a, b), b)
+		case 1:
+			return NewObject("k", NewList(a, b), "z", s)
+		case 2:
+			return NewList(s, NewObject("p", a, "q", b))
+		case 3:
+			return NewObject("k", NewObject("p", a, "q", b), "z", s)
+		case 4:
+			return NewObject("k", NewObject("in", NewObject("p", a)), "l", NewList(NewObject("q", b)))
+		default:
+			return NewList(NewList(NewList(a), NewObject("p", b)), s)
+		}
+	}
+	shape := nondetIntRange(0, 5)
+	a1, b1, a2, b2 := nondetInt(), nondetInt(), nondetInt(), nondetInt()
+	s1, s2 := hBytesStr(1), hBytesStr(1)
+	l, r := mk(shape, a1, b1, s1), mk(shape, a2, b2, s2)
+	want := hRefEq(hSnapAny(l), hSnapAny(r))
+	lr, p1 := hEqualsAny(l, r)
+	rl, p2 := hEqualsAny(r, l)
+	verifAssert(!p1 && !p2, "Equals never panics")
+	verifAssert(lr == want && rl == want, "Equals is exactly typed structural equality at every nesting (nested containers compared recursively by value)")
+	verifReach("end")
+}
